@@ -434,9 +434,15 @@ def run_overlapped(ctx, n_hist, chunk, abort_every=1):
 def run(ctx):
     q = ctx.quick
     c15._seen.clear()
-    p1 = run_sequential(ctx, 14 if q else 300, True, ctx.rng.choice([5, 7, 11]), True)
-    p2 = run_overlapped(ctx, 12 if q else 300, 9, abort_every=2 if q else 3)
-    p3 = run_sequential(ctx, 6 if q else 120, False, 64, False)
+    sf.FdGuard.peak = 0
+    with sf.FdGuard('c04 sequential'):
+        p1 = run_sequential(ctx, 14 if q else 300, True, ctx.rng.choice([5, 7, 11]), True)
+    with sf.FdGuard('c04 overlapped'):
+        p2 = run_overlapped(ctx, 12 if q else 300, 9, abort_every=2 if q else 3)
+    with sf.FdGuard('c04 real pickle'):
+        p3 = run_sequential(ctx, 6 if q else 120, False, 64, False)
+    ctx.note('file descriptors: at most %d open at a time during the run (every stream is checked for leaks; '
+             'descriptors an interrupted operation left open are closed by the harness after judging)' % sf.FdGuard.peak)
     stray = 0
     ctx.note('not judged: temp files of interrupted dumps stay in tmp_dir, an interrupted write() leaves an orphan '
              '<id>.env (logged and skipped by load()), an interrupted remove() leaves an orphan <id>.meta - none of '
